@@ -120,6 +120,7 @@ def execute(sc, ctx):
     versions = {}  # index -> [(mtime_ns, bytes)] of earlier in-place versions (same inode)
     saved = {}  # path -> {token: bytes when a row may have been written}
     row = {}  # path -> (token, bytes) model of the current md5 row
+    lrow = {}  # path -> (token, bytes) model of the row while it belongs to the legacy algorithm
     hits = invalidations = 0
     gen_n = [0]
 
@@ -177,6 +178,7 @@ def execute(sc, ctx):
                 r = row.get(path(i))
                 if r is None or r[0] != t:
                     row[path(i)] = (t, cur[i])
+                    lrow.pop(path(i), None)
                 saved.setdefault(path(i), {}).setdefault(t, cur[i])
 
     def judge(i, name, value, where):
@@ -286,6 +288,7 @@ def execute(sc, ctx):
             elif op["what"] == "legacy_name":
                 # a VALID row of the legacy algorithm (its digest differs from md5: contents carry CRLF)
                 state.save(p, fs, HashInfo("md5-dos2unix", model.ref_digest("md5-dos2unix", cur[i])), info=info)
+                lrow[p] = (token(p), cur[i])
             else:
                 from dvc_data.hashfile.state import _checksum
 
@@ -293,6 +296,8 @@ def execute(sc, ctx):
                          "hash_info": {"md5": "e" * 32}}
                 state.hashes[p] = json.dumps(entry)
             row.pop(p, None)
+            if op["what"] != "legacy_name":
+                lrow.pop(p, None)
             ctx.probe("injected_" + op["what"])
             continue
         # ---- queries ----------------------------------------------------
@@ -370,9 +375,17 @@ def execute(sc, ctx):
             want = model.ref_digest("md5-dos2unix", cur[i])
             if hi.name != "md5-dos2unix":
                 ctx.violate("wrong-algorithm-returned", "hash_file:md5-dos2unix", f"{files[i]}: {hi.name}")
-            elif hi.value != want:
-                r = row.get(p)
-                ctx.violate("stale-or-wrong-hash", "hash_file:md5-dos2unix", f"{files[i]}: returned {hi.value[:8]} want {want[:8]}")
+            t = token(p)
+            lr = lrow.get(p)
+            if hi.name == "md5-dos2unix" and hi.value != want:
+                # same tolerance as for md5 rows: a legacy row written for this very (inode, mtime, size)
+                # triple may keep vouching for the bytes the file had when the triple was last current
+                if lr is not None and lr[0] == t and lr[1] != cur[i] and hi.value == model.ref_digest("md5-dos2unix", lr[1]):
+                    ctx.probe("invisible_mutation_tolerated")
+                else:
+                    ctx.violate("stale-or-wrong-hash", "hash_file:md5-dos2unix", f"{files[i]}: returned {hi.value[:8]} want {want[:8]}")
+            if lr is None or lr[0] != t:
+                lrow[p] = (t, cur[i])  # a miss: hashed afresh and saved under the current triple
             row.pop(p, None)  # the row now belongs to another algorithm
         elif kind == "build_dry":
             if not any(v is not None for v in cur.values()):
@@ -390,6 +403,7 @@ def execute(sc, ctx):
                     judge(j, got[files[j]].name, got[files[j]].value, "build(dry_run)")
             note_saved([j for j in range(len(files)) if j not in mid_touched])
             for j in mid_touched:
+                lrow.pop(path(j), None)
                 if mid_invisible.get(j):
                     row[path(j)] = mid_invisible[j]
                 else:
@@ -404,6 +418,7 @@ def execute(sc, ctx):
                     judge(j, e.hash_info.name, e.hash_info.value, "build_entries")
             note_saved([j for j in range(len(files)) if j not in mid_touched])
             for j in mid_touched:
+                lrow.pop(path(j), None)
                 if mid_invisible.get(j):
                     row[path(j)] = mid_invisible[j]
                 else:
